@@ -5,6 +5,7 @@ CONSTANTS
   InitProcs <- MCInit
   SCtxs <- MCSCtxs
   FCtxs <- MCFCtxs
+  Faults <- MCFaults
   MaxSteps = @MAXSTEPS@
   MaxSpans = @MAXSPANS@
 VIEW View
